@@ -283,6 +283,17 @@ def generate(rng, tier):
             t[rng.randrange(n)] = o
             for m in MODES:
                 yield enc_case(m, ''.join(t))
+    # 0c. strict rejection is what makes the Sender fall back to UCS2 - the first time a message is sent and every time the
+    #     same object is sent again after a failed transmission (session ledger of C01, wire check only)
+    from corr import c01s
+    for k in range(6 if thorough else 3):
+        sc = dict(msgs=[dict(at=0.7 + 0.1 * k, log='L1', seg=False, react='reset', ucs=True),
+                        dict(at=3.0, log='L2', seg=False, react='ok', ucs=True)],
+                  hook='none', stalls=0, drops=0, seed=rng.randrange(10 ** 9), put_hook=False, order=(1, 7)[k % 2],
+                  again=dict(log='L1', mode='same', after=9.5 + k))
+        c = c01s.case_of(sc, 'c13')
+        c.fail = c01s.wire_text_check(sc)          # (judged by the wire alone here)
+        yield c
     # 1. single code points, every mode
     if thorough:
         cps = range(0x110000)
@@ -360,6 +371,9 @@ def generate(rng, tier):
 
 
 def replay(inp):
+    if inp['op'] == 'session':
+        from corr import c01s
+        return c01s.case_of(dict(inp['sc']), 'c13')
     if inp['op'] == 'hist-dec':
         return hist_dec_case(inp['mode'], bytes.fromhex(inp['hex']), tuple(inp['poison']))
     if inp['op'] == 'hist':
